@@ -140,6 +140,11 @@ fn perm_lists(quick: bool) -> Vec<(String, String)> {
     out.push(("bob".to_string(), "w *xiwr".to_string()));
     out.push(("bob".to_string(), "i xiwr".to_string()));
     out.push(("bob".to_string(), "x xi*|r zz".to_string()));
+    // kinds fields that repeat a letter or spell the letters in another order (a kinds field is
+    // a set of letters, whatever its spelling)
+    for kinds in ["ww", "rr", "ii", "xx", "wwr", "xxi", "iiw", "rrx", "xiwr", "wwww", "rrrr", "wxw"] {
+        out.push(("bob".to_string(), format!("{} k*", kinds)));
+    }
     out.push(("all".to_string(), "r k*".to_string()));
     out.push(("all".to_string(), "rwix *".to_string()));
     out
